@@ -200,9 +200,10 @@ def same_rule_object_on_other_architectures(ctx: Ctx, n: int):
             robj = rules.build_rule(spec)
             for k, (v, a_) in enumerate(archs):
                 got = rules.run_rule(robj, a_)
-                matched = [x for x in v if re.match(pat, x)]
+                present = sorted(a_.modules)         # the architecture adds the ancestors of its modules: match against what it really holds
+                matched = [x for x in present if re.match(pat, x)]
                 ctx.evaluations += 1
-                if not matched or plain not in v:
+                if not matched or plain not in present:
                     exp = "ERR"
                 else:
                     exp = rules.run_rule(rules.build_rule(dict(spec, subj=("named", matched))), a_)[0]
@@ -343,6 +344,22 @@ def replay(ctx: Ctx, path: str) -> int:
             if s.get(k) is not None:
                 s[k] = (s[k][0], s[k][1])
         return s
+    if "architecture" in c and "pattern" in c:
+        import re
+        v = c["architecture"]
+        arch = rules.make_arch_direct(v, [tuple(e) for e in c["edges"] if e[0] in v and e[1] in v])
+        present = sorted(arch.modules)
+        matched = [x for x in present if re.match(c["pattern"], x)]
+        spec = fix(c["spec"])
+        got = rules.run_rule(rules.build_rule(spec), arch)
+        side = "subj" if spec["subj"][0] == "regex" else "obj"
+        plain_ok = all(n in present for n in (spec["obj"] if side == "subj" else spec["subj"])[1])
+        exp = "ERR" if not matched or not plain_ok else rules.run_rule(rules.build_rule(dict(spec, **{side: ("named", matched)})), arch)[0]
+        print("regex rule:", got[0], "expansion on this architecture:", exp, "matches:", matched)
+        if got[0] != exp:
+            print(f"VIOLATION property=C11 replay={path}")
+            return 1
+        return 0
     if "partial_names" in c:
         nodes, edges = c["nodes"], [tuple(e) for e in c["edges"]]
         arch = rules.make_arch_direct(nodes, edges)
